@@ -517,6 +517,7 @@ func c08Scenarios(th bool) []vx.Scenario {
 		}
 		// long runs: reach and stay at the cap, recover, fail again; 5xx answers count as failures too
 		out = append(out, c08Scenario(strings.Repeat("F", 22)+"S"+"FFF", jit[jn], jn))
+		out = append(out, c08Scenario(strings.Repeat("F", 50)+"S"+"F", jit[jn], jn))
 		out = append(out, c08Scenario(strings.Repeat("Z", 18)+"S"+"ZF", jit[jn], jn))
 		out = append(out, c08Scenario(strings.Repeat("F", 16)+"S"+"FFF", jit[jn], jn))
 		out = append(out, c08Scenario(strings.Repeat("E", 13)+"SS"+"EF", jit[jn], jn))
@@ -1096,6 +1097,21 @@ func c07Faults() []c07Fault {
 	return []c07Fault{
 		{name: "none", apply: func(w *world) {}},
 		{name: "list-err", apply: func(w *world) { w.lists = append([]listReply{{kind: "err"}}, w.lists...) }},
+		{name: "list-err-x50", apply: func(w *world) {
+			// a proxy outage of a couple of minutes: fifty failing list calls in a row
+			var f []listReply
+			for i := 0; i < 50; i++ {
+				f = append(f, listReply{kind: "err"})
+			}
+			w.lists = append(f, w.lists...)
+		}},
+		{name: "list-503-x64", apply: func(w *world) {
+			var f []listReply
+			for i := 0; i < 64; i++ {
+				f = append(f, listReply{kind: "503empty"})
+			}
+			w.lists = append(f, w.lists...)
+		}},
 		{name: "list-500", apply: func(w *world) { w.lists = append([]listReply{{kind: "500"}}, w.lists...) }},
 		{name: "list-garbage", apply: func(w *world) { w.lists = append([]listReply{{kind: "garbage"}}, w.lists...) }},
 		{name: "list-huge", apply: func(w *world) { w.lists = append([]listReply{{kind: "huge"}}, w.lists...) }},
